@@ -42,6 +42,56 @@ func oracleC13(s *Scenario, x *vrt.Exec, o *Obs) []vrt.Violation {
 	if o.W == nil || x.Outcome().Panic != nil {
 		return nil
 	}
+	// whatever a loop step reports - also when it is closed while items are queued or running - accounts
+	// for every item: a success output has one non-null entry per item, a failure output names every
+	// item either in data or in errors, never in both
+	for _, e := range o.W.Ledger {
+		if e.Kind != "notify-change" && e.Kind != "notify-complete" {
+			continue
+		}
+		n, _ := asNotif(e.Data)
+		var st *Step
+		for i := range s.Prog.Steps {
+			if s.Prog.Steps[i].ID == e.Step && s.Prog.Steps[i].Kind == "foreach" {
+				st = &s.Prog.Steps[i]
+			}
+		}
+		if st == nil || n.OutputID == "" {
+			continue
+		}
+		nItems := -1
+		if l, ok := st.Items.(List); ok {
+			nItems = len(l.Items)
+		}
+		m, _ := canon(n.Output).(map[string]any)
+		switch n.Prev + "." + n.OutputID {
+		case "outputs.success":
+			data, _ := m["data"].([]any)
+			if nItems >= 0 && len(data) != nItems {
+				out = append(out, viol(s, "success-length", st.ID, fmt.Sprintf("loop %s reported success with %d entries for %d items: %s", st.ID, len(data), nItems, canonStr(n.Output))))
+			}
+			for i, d := range data {
+				if d == nil {
+					out = append(out, viol(s, "success-with-missing-item", st.ID, fmt.Sprintf("loop %s reported success although item %d has no result: %s", st.ID, i, canonStr(n.Output))))
+					break
+				}
+			}
+		case "failed.error":
+			data, _ := m["data"].(map[string]any)
+			errs, _ := m["errors"].(map[string]any)
+			for i := 0; i < nItems; i++ {
+				_, inData := data[fmt.Sprint(i)]
+				_, inErr := errs[fmt.Sprint(i)]
+				if inData == inErr {
+					out = append(out, viol(s, "failure-does-not-account-for-item", st.ID, fmt.Sprintf("loop %s reported failure; item %d appears in data=%v and in errors=%v: %s", st.ID, i, inData, inErr, canonStr(n.Output))))
+					break
+				}
+			}
+			if len(errs) == 0 {
+				out = append(out, viol(s, "failure-without-errors", st.ID, "loop "+st.ID+" reported failure without naming a failing item: "+canonStr(n.Output)))
+			}
+		}
+	}
 	// parallelism bound: concurrently executing item plugins per loop
 	for i := range s.Prog.Steps {
 		st := &s.Prog.Steps[i]
